@@ -582,7 +582,8 @@ class Folder:
                         self.spell(wt, s, p["name"], vals, p["has_dflt"], p["dflt"])
             if self.ch.chance(1, 6):
                 used = {p["name"] for p in wt.params}
-                name = [n for n in ["unused", "p", "q", "unused-b", "unused-c", "unused-d"] if n not in used][0]
+                name = [n for n in ["unused", "p", "q"] + ["unused-%d" % i for i in range(len(used) + 1)]
+                        if n not in used][0]
                 wt.params.append({"name": name, "has_dflt": True, "dflt": "value-unused", "decoy": True})
                 wt.pvals[name] = {pa: ("lit", "value-unused") for pa, _ in wt.inst}
                 self.labels.add("unused-param-with-default")
